@@ -5,7 +5,9 @@ from harness.common import coq_list, coq_Z, coq_opt
 
 REQ = ["Verif.lib.PyLite", "Verif.gen.NegotiateGen", "Verif.lib.Negotiate", "Verif.gen.IdentityGen", "Verif.lib.Identity"]
 REQB = ["Verif.lib.PyLite", "Verif.gen.NegotiateGen", "Verif.lib.Negotiate", "Verif.lib.NegBytes", "Verif.gen.IdentityGen", "Verif.lib.NegSplit",
-        "Verif.lib.Identity", "Verif.lib.IdentityBytes", "Verif.lib.IdentityBytesRef"]
+        "Verif.lib.Identity", "Verif.lib.IdentityBytes", "Verif.lib.NegCodec", "Verif.gen.NegCodecGen", "Verif.lib.NegWire",
+        "Verif.lib.IdentityBytesReal"]
+REQK = ["Verif.lib.PyLite", "Verif.gen.NegotiateGen", "Verif.lib.Negotiate", "Verif.gen.IdentityGen", "Verif.lib.Identity", "Verif.lib.IdentityKeys"]
 CLAIMS = [None, "absent", "A", "B", "C", "empty", "garbage", "upper", "prefix", "ext", "long"]
 CERTS = ["none", "A", "B", "C"]
 CORPUS = os.path.join(common.VERIF, "corpus", "C05")
@@ -30,11 +32,14 @@ def run(ctx):
                 "was attached at A while >= 2 lookups were issued; table and per-reference oracles judged after every delivery.  Byte scripts = a raw peer "
                 "sends BYTES from the first byte of the connection: every variant of the plaintext block (GET line / 101 answer: wrong verb, token "
                 "counts, other / empty / undecodable id, redirect configured, missing upgrade), then hello / decision / hybrid hello+decision / "
-                "error / junk / undecodable / over-long blocks (57 block kinds), all pairs of 9 core kinds, cut at arbitrary BYTE offsets; "
+                "error / junk / over-long blocks, header text with well-formed 2/3/4-byte UTF-8 and every kind of malformed sequence (80 block kinds), "
+                "all pairs of 9 core kinds, cut at arbitrary BYTE offsets; "
                 "non-trivial = at least 3 blocks or a non-standard plaintext block; phase, theirTubRef, attached keys and the exception class are "
                 "compared with the byte-level model after every chunk.  Reference histories = an authenticated peer sends sequences of "
                 "my-reference forms (short / long, URL absent / own / another Tub's / the receiver's / case-changed) for new and known clids; "
-                "all pairs on one clid plus random longer ones; every tracker and RemoteReference judged after every step")
+                "all pairs on one clid plus random longer ones; every tracker and RemoteReference judged after every step.  Key trials = FURLs naming the same Tub in other words (other hints, "
+                "other name, longer tubid part, no hints, upper case) and another Tub at the same location, asked in fixed and random orders; "
+                "ids differing from a connected Tub's in one character; TubRef equality / hash / dict membership on a 24 x 24 grid of (tubID, hints) pairs")
     ctx.assumptions = [
         "TLS itself is replaced: startTLS is a no-op and the transport's handle is a fake OpenSSL connection object "
         "(get_peer_certificate / get_peer_cert_chain / get_verified_chain) describing what the peer presents: a leaf certificate plus "
@@ -47,12 +52,18 @@ def run(ctx):
         "raises) is translated",
         "byte-level receive loop (lib/IdentityBytes.v): translated = block splitter tests (header_verdict), phase dispatch, "
         "handlePLAINTEXTServer / handlePLAINTEXTClient statement by statement incl. their exception classes, identity checks, attach key, "
-        "phase constants; hand-modelled and compared with the real Negotiation chunk by chunk = parseLines, the statement order inside "
-        "handleENCRYPTED / handleDECIDING, switchToBanana emptying the buffer; universally quantified parameters of the theorems (nothing "
-        "assumed) = UTF-8 decoding (six.ensure_str), every non-identity check before (pre_ok: range, version overlap, forced) and after "
-        "(post_ok: existing connection, vocabulary range) the identity checks, acceptDecision (decision_ok).  The correspondence runs a "
-        "concrete instance of these parameters (lib/IdentityBytesRef.v) that is valid for the generated bytes only: ASCII plus 0xFE/0xFF, "
-        "integers written with digits",
+        "phase constants; hand-modelled and compared with the real Negotiation chunk by chunk = the statement order inside handleENCRYPTED / "
+        "handleDECIDING, switchToBanana emptying the buffer.  In the general theorems the header parser, UTF-8 decoding, every non-identity "
+        "check (before / after the identity checks, acceptDecision) and the redirect table are universally quantified (nothing assumed).  The "
+        "C05_real_* corollaries and the correspondence instantiate them with C13's translated parseLines (strict UTF-8 decoder of "
+        "lib/NegCodec.v) and the wire-level checks of lib/NegWire.v (eval_hello_wire, decide_wire, accept_wire) plus `assert not forced`; "
+        "of these, NegCodec.py_int does not cover integer fields with bytes >= 128 (the generated integer fields are ASCII; all other header "
+        "text is arbitrary bytes), and the duplicate-connection rule of the deciding end (C14) is not part of post_chk",
+        "getReference key path: TubRef._distinguishers / __eq__ / __hash__ (gen/FurlGen.v, C20's generator), SturdyRef.getTubRef, "
+        "TubRef.__init__, Tub._getReference's key, Tub.getBrokerForTubRef's decision are translated; a dict probe is modelled as 'equal hashed "
+        "tuples and __eq__' (a hash collision between unequal tuples could only be filtered by __eq__ anyway); FURL parsing is C20's model of "
+        "decode_furl (the tub id a FURL names = first 32 characters of its tubid part), tied here by comparing SturdyRef(furl).tubID with an "
+        "independent reading of the FURL text",
         "exception classes on the certificate-less path (twisted's CertificateError), the error-block and timeout paths "
         "(RemoteNegotiationError, ConnectionDone, NegotiationError of the session model) are hand-modelled and tied by the correspondence only",
         "_test_options (debug_slow_* / debug_pause_* timers of Negotiation) are taken to be unset; bytes that arrive after switchToBanana go to "
@@ -64,33 +75,37 @@ def run(ctx):
     from harness import c05_impl as impl
     before = len(ctx.failures)
     with impl.quiet():
-        cells = corpus(ctx, impl)
-        cells += matrix(ctx, impl)
-    model_ok = bytes_ok = ok
+        cells = _t(ctx, 'corpus', corpus, ctx, impl)
+        cells += _t(ctx, 'matrix', matrix, ctx, impl)
+    model_ok = bytes_ok = keys_ok = ok
     if not ok:
         model_ok, _ = build(ctx, ["lib/Identity.vo"])
-        bytes_ok, _ = build(ctx, ["lib/IdentityBytesRef.vo"])
+        bytes_ok, _ = build(ctx, ["lib/IdentityBytesReal.vo"])
+        keys_ok, _ = build(ctx, ["lib/IdentityKeys.vo"])
     if model_ok:
-        correspond_sessions(ctx, cells)
+        _t(ctx, 'correspond_sessions', correspond_sessions, ctx, cells)
     with impl.quiet():
-        malformed(ctx, impl)
-        urls = inbound_urls(ctx, impl)
-        rhist = ref_histories(ctx, impl)
-        gifts(ctx, impl)
-        hist = histories(ctx, impl)
-        scripts = keeps_sending(ctx, impl)
-        bscripts = bytes_scripts(ctx, impl)
-        grs = getref_histories(ctx, impl)
-        crs = crossed(ctx, impl)
+        _t(ctx, 'malformed', malformed, ctx, impl)
+        urls = _t(ctx, 'inbound_urls', inbound_urls, ctx, impl)
+        rhist = _t(ctx, 'ref_histories', ref_histories, ctx, impl)
+        ktr = _t(ctx, 'key_trials', key_trials, ctx, impl)
+        _t(ctx, 'gifts', gifts, ctx, impl)
+        hist = _t(ctx, 'histories', histories, ctx, impl)
+        scripts = _t(ctx, 'keeps_sending', keeps_sending, ctx, impl)
+        bscripts = _t(ctx, 'bytes_scripts', bytes_scripts, ctx, impl)
+        grs = _t(ctx, 'getref_histories', getref_histories, ctx, impl)
+        crs = _t(ctx, 'crossed', crossed, ctx, impl)
     if model_ok:
-        correspond_getrefs(ctx, grs)
-        correspond_crossed(ctx, crs)
-        correspond_urls(ctx, urls)
-        correspond_ref_histories(ctx, rhist)
-        correspond_histories(ctx, hist)
-        correspond_scripts(ctx, scripts)
+        _t(ctx, 'correspond_getrefs', correspond_getrefs, ctx, grs)
+        _t(ctx, 'correspond_crossed', correspond_crossed, ctx, crs)
+        _t(ctx, 'correspond_urls', correspond_urls, ctx, urls)
+        _t(ctx, 'correspond_ref_histories', correspond_ref_histories, ctx, rhist)
+        _t(ctx, 'correspond_histories', correspond_histories, ctx, hist)
+        _t(ctx, 'correspond_scripts', correspond_scripts, ctx, scripts)
     if bytes_ok:
-        correspond_bytes(ctx, bscripts)
+        _t(ctx, 'correspond_bytes', correspond_bytes, ctx, bscripts)
+    if keys_ok:
+        _t(ctx, 'correspond_keys', correspond_keys, ctx, ktr)
     if not ok and len(ctx.failures) == before:
         ctx.fail("proof-broken", "the Coq development for C05 no longer builds against the regenerated gen/IdentityGen.v "
                  "(theorem closure props/C05.vo):\n" + log[-2500:], replay=dict(log=log[-6000:]), has_input=False)
@@ -98,9 +113,20 @@ def run(ctx):
         ctx.note("proof broken AND a failing input was found (reported above)")
 
 
+def _t(ctx, name, fn, *args):
+    """run one section, recording its wall and child-inclusive CPU seconds in the evidence"""
+    import time, os
+    w0, c0 = time.time(), sum(os.times()[:4])
+    try:
+        return fn(*args)
+    finally:
+        ctx.extra.setdefault("section_s", {})[name] = [round(time.time() - w0, 1), round(sum(os.times()[:4]) - c0, 1)]
+
+
 MY_CLOSURE = ("gen/IdentityGen.v", "gen/NegotiateGen.v", "lib/PyLite.v", "lib/Negotiate.v", "lib/NegotiateProofs.v",
               "lib/Identity.v", "lib/IdentityProofs.v", "lib/NegBytes.v", "lib/NegSplit.v", "lib/IdentityBytes.v",
-              "lib/IdentityBytesProofs.v", "lib/IdentityBytesRef.v", "props/C05.v")
+              "lib/IdentityBytesProofs.v", "lib/IdentityBytesReal.v", "lib/IdentityBytesRealProofs.v", "lib/IdentityKeys.v",
+              "lib/IdentityKeysProofs.v", "lib/NegCodec.v", "gen/NegCodecGen.v", "lib/NegWire.v", "props/C05.v")
 
 
 def build(ctx, targets):
@@ -251,8 +277,45 @@ def cstr(s):
     return "None" if s is None else "(Some %s)" % zs(s)
 
 
-def zs(s):
+class Lits:
+    """string literals of one correspondence file: each distinct string is written once as a Definition and referred to by name
+    (coqc spends most of its time parsing number lists)"""
+
+    def __init__(self):
+        self.names, self.defs = {}, []
+
+    def __call__(self, s):
+        if s not in self.names:
+            self.names[s] = "lit%d" % len(self.names)
+            self.defs.append("Definition %s : list Z := %s." % (self.names[s], zs_plain(s)))
+        return self.names[s]
+
+    def text(self):
+        return "\n".join(self.defs) + "\n"
+
+
+_LITS = None
+
+
+def begin_lits():
+    global _LITS
+    _LITS = Lits()
+    return _LITS
+
+
+def end_lits():
+    global _LITS
+    _LITS = None
+
+
+def zs_plain(s):
     return "[" + ";".join(str(ord(ch)) for ch in s) + "]%Z"
+
+
+def zs(s):
+    if _LITS is not None and len(s) >= 6:
+        return _LITS(s)
+    return zs_plain(s)
 
 
 CERTN = dict(none="None", A="(Some 1%Z)", B="(Some 2%Z)", C="(Some 3%Z)")
@@ -291,20 +354,23 @@ def correspond_sessions(ctx, cells):
         defs.append("Definition ord_%s : Z -> list Z := fun c => if (c =? 1)%%Z then idA_%s else if (c =? 2)%%Z then idB_%s "
                     "else if (c =? 3)%%Z then idC_%s else []." % (a_pos, a_pos, a_pos, a_pos))
     nbad = 0
-    for shard in range(0, len(cells), 400):
-        part = cells[shard:shard + 400]
-        body = "\n".join(defs) + """
+    lits = begin_lits()
+    for shard in range(0, len(cells), 1000):
+        part = cells[shard:shard + 1000]
+        cases_txt = coq_list(session_term(impl, c) for c in part)
+        body = lits.text() + "\n".join(defs) + """
 Definition code (tubid_of : Z -> list Z) (k : option (list Z)) : Z :=
   match k with None => (-1)%Z | Some k =>
     if list_eqb k (tubid_of 1%Z) then 1%Z else if list_eqb k (tubid_of 2%Z) then 2%Z else if list_eqb k (tubid_of 3%Z) then 3%Z else 0%Z end.
 Definition fs (o : option string) : string := match o with None => "-"%string | Some s => s end.
 Definition show (f : Z -> list Z) (o : endobs) := (code f (ever o), code f (final o), fs (fail o)).
-Definition cases : list ((Z -> list Z) * session_cfg Z) := """ + coq_list(session_term(impl, c) for c in part) + """.
+Definition cases : list ((Z -> list Z) * session_cfg Z) := """ + cases_txt + """.
 Eval vm_compute in map (fun c => let '(oc, os) := session Z (fst c) (snd c) in [show (fst c) oc; show (fst c) os]) cases.
 """
         try:
-            (vals,) = ctx.coq_eval("C05_sessions_%d" % (shard // 400), body, requires=REQ)
+            (vals,) = ctx.coq_eval("C05_sessions_%d" % (shard // 1000), body, requires=REQ)
         except common.CoqEvalError as e:
+            end_lits()
             ctx.fail("correspondence-broken", "the C05 model could not be evaluated: " + str(e)[-1500:], has_input=False)
             return
         for c, (mc, ms) in zip(part, vals):
@@ -321,6 +387,7 @@ Eval vm_compute in map (fun c => let '(oc, os) := session Z (fst c) (snd c) in [
                     ctx.fail("correspondence/session", "model and implementation disagree on cell %r: model client=%r server=%r, "
                              "implementation client=%r server=%r result=%r" % (c["cfg"], mc, ms, ic, is_, o["result"]),
                              replay=dict(cell=c["cfg"], model=[mc, ms], impl=[ic, is_], observed=o), has_input=False)
+    end_lits()
     ctx.extra["correspondence_session_cells"] = len(cells)
     ctx.extra["correspondence_session_disagreements"] = nbad
 
@@ -744,8 +811,9 @@ def correspond_getrefs(ctx, grs):
         return
     nm = dict(o1="[1%Z]", o2="[2%Z]")
     nbad = 0
-    for shard in range(0, len(rows), 400):
-        part = rows[shard:shard + 400]
+    lits = begin_lits()
+    for shard in range(0, len(rows), 800):
+        part = rows[shard:shard + 800]
         terms = []
         for g in part:
             evs = []
@@ -755,16 +823,20 @@ def correspond_getrefs(ctx, grs):
                 else:
                     tid = g["ids"]["C" if o[1] == "Cimp" else o[1]]
                     evs.append("GrRequest (Build_furl %s %s)" % (zs(tid), nm[o[2]]))
-            terms.append("map (fun x => (Z.of_nat (fst x), a_key (snd x), a_name (snd x))) (g_delivered (gr_run %s))" % coq_list(evs))
-        body = "Eval vm_compute in [" + ";\n ".join(terms) + "].\n"
+            terms.append("map (fun x => (Z.of_nat (fst x), pos 0%%Z (a_key (snd x)) allkeys, a_name (snd x))) (g_delivered (gr_run %s))" % coq_list(evs))
+        order = sorted(lits.names, key=lambda k_: int(lits.names[k_][3:]))
+        body = (lits.text() + "Definition allkeys : list (list Z) := %s.\n" % coq_list(lits.names[k_] for k_ in order)
+                + "Fixpoint pos (i : Z) (k : list Z) (l : list (list Z)) : Z := match l with [] => (-1)%Z | x :: r => if list_eqb k x then i else pos (i + 1)%Z k r end.\n"
+                + "Eval vm_compute in [" + ";\n ".join(terms) + "].\n")
         try:
-            (vals,) = ctx.coq_eval("C05_getrefs_%d" % (shard // 400), body, requires=REQ)
+            (vals,) = ctx.coq_eval("C05_getrefs_%d" % (shard // 800), body, requires=REQ)
         except common.CoqEvalError as e:
+            end_lits()
             ctx.fail("correspondence-broken", "the C05 getReference model could not be evaluated: " + str(e)[-1500:], has_input=False)
             return
         for g, val in zip(part, vals):
             ctx.traces += 1
-            model = {r_: ("".join(chr(c) for c in key), {1: "o1", 2: "o2"}.get(name[0] if name else 0)) for (r_, key, name) in val}
+            model = {r_: (order[key] if 0 <= key < len(order) else None, {1: "o1", 2: "o2"}.get(name[0] if name else 0)) for (r_, key, name) in val}
             bad = [(i, o, model.get(i)) for i, o in enumerate(g["obs"]) if o is not None and tuple(o) != model.get(i)]
             if bad or len(model) != len(g["obs"]):
                 nbad += 1
@@ -772,6 +844,7 @@ def correspond_getrefs(ctx, grs):
                     ctx.fail("correspondence/getref", "Tub.getReference and its model differ on history %r: (request number, answer seen, "
                              "answer in the model) = %r" % (g["ops"], bad or "number of answered requests"),
                              replay=dict(history=g, model=repr(model)), has_input=False)
+    end_lits()
     ctx.extra["correspondence_getref_histories"] = len(rows)
     ctx.extra["correspondence_getref_disagreements"] = nbad
 
@@ -916,12 +989,14 @@ Definition answers (tid : Z -> list Z) (evs : list (tevent Z)) :=
 # ---------------------------------------------------------------------------------------------- raw bytes from the first byte
 HELLOS = ["Hleaf", "Hx", "Habsent", "Hempty", "Hx_then_leaf", "Hleaf_then_x", "Hupper_key", "Hupper_val", "Hleaf_error", "Hleaf_range_low",
           "Hleaf_range_none", "Hleaf_range_junk", "Hleaf_range_one", "Hleaf_norange", "Hleaf_forced", "Hleaf_notforced", "Hleaf_vocab_bad",
-          "Hleaf_vocab_default", "Hleaf_and_decision", "Hx_and_decision"]
-DECISIONS = ["D", "D2", "D99", "Dnover", "Dempty_ver", "Derror", "Dbadhash", "Dbadindex", "Dclaims_x"]
+          "Hleaf_vocab_default", "Hleaf_and_decision", "Hx_and_decision",
+          "Hleaf_u2", "Hleaf_u3", "Hleaf_u4", "Hleaf_umax", "Hleaf_ukey", "Hx_u2", "Hbad_cont", "Hbad_trunc", "Hbad_overlong", "Hbad_overlong3",
+          "Hbad_surrogate", "Hbad_above", "Hbad_f5", "Hclaim_u", "Hclaim_nbsp", "Hclaim_ws"]
+DECISIONS = ["D", "D2", "D99", "Dnover", "Dempty_ver", "Derror", "Dbadhash", "Dbadindex", "Dclaims_x", "D_u", "D_bad"]
 OTHERS = ["E", "J", "Jff", "Jffval", "Jblank"]
 PLAIN = dict(Server=["GETA", "GETA_noupgrade", "GETC", "GETempty", "GET2tok", "GET4tok", "GETtabs", "GETlower", "GETindex", "GETff", "GETAupper",
-                     "POST", "Jblank", "J", "Hleaf", "R101"],
-             Client=["R101", "R101_noupgrade", "R101_noupgrade_ff", "R200", "R200ff", "R1tok", "Rblank", "R500", "J", "Hleaf", "GETA"])
+                     "GETu", "GETbad", "POST", "Jblank", "J", "Hleaf", "R101"],
+             Client=["R101", "R101_noupgrade", "R101_noupgrade_ff", "R200", "R200ff", "R200u", "R200bad", "R1tok", "Rblank", "R500", "J", "Hleaf", "GETA"])
 CORE = ["Hleaf", "Hx", "Hleaf_and_decision", "Hx_and_decision", "Hleaf_range_junk", "D", "D99", "E", "J"]
 # fixed witnesses (one per family of seeded change met so far), run first
 BYTE_WITNESSES = [
@@ -953,13 +1028,15 @@ def bytes_scripts(ctx, impl):
         for a_pos in ("hi", "lo"):
             for (leaf, x) in pres:
                 for h in HELLOS + OTHERS + DECISIONS:
-                    jobs.append((role, a_pos, leaf, x, [], [good, h, "D"], [], False))
+                    if ctx.tier == "thorough" or leaf == "C" or a_pos == "hi":
+                        jobs.append((role, a_pos, leaf, x, [], [good, h, "D"], [], False))
                 for pl in PLAIN[role]:
                     jobs.append((role, a_pos, leaf, x, [], [pl, good, "Hleaf", "D"], [], False))
                     jobs.append((role, a_pos, leaf, x, [], [pl, "Hleaf", "D", good], [r.randrange(1, 60)], False))
                 for b1 in CORE:
                     for b2 in CORE:
-                        jobs.append((role, a_pos, leaf, x, [], [good, b1, b2, "D"], [], False))
+                        if ctx.tier == "thorough" or (leaf == "C" and (a_pos == "hi") == (role == "Server")):
+                            jobs.append((role, a_pos, leaf, x, [], [good, b1, b2, "D"], [], False))
                 for tail in (["Long", "Hleaf", "D"], ["Pad4000", "Hleaf", "D"], ["Pad4000", "Hx", "D", "Hleaf"]):
                     jobs.append((role, a_pos, leaf, x, [], [good] + tail, [r.randrange(1, 4300), r.randrange(1, 4300)], False))
                 jobs.append((role, a_pos, leaf, x, [], ["Long", good, "Hleaf"], [4095, 4096, 4100, 4101], False))
@@ -967,7 +1044,7 @@ def bytes_scripts(ctx, impl):
             jobs.append(("Server", a_pos, "C", "B", [], ["GETC"], [], True))
             jobs.append(("Server", a_pos, "B", "B", [], ["GETC", "GETA", "Hleaf", "D"], [], True))
     allb = HELLOS + DECISIONS + OTHERS
-    for i in range(ctx.n(300, 8000)):
+    for i in range(ctx.n(100, 8000)):
         role = r.choice(["Client", "Server"])
         good = "GETA" if role == "Server" else "R101"
         n = r.randint(2, 5)
@@ -1029,22 +1106,24 @@ def zbytes(data):
 
 
 def correspond_bytes(ctx, rows):
+    """the byte-level model with the REAL checks (lib/IdentityBytesReal.v: translated parseLines with strict UTF-8, NegWire's
+    evaluateHello / decision / acceptDecision) against the real Negotiation, chunk by chunk"""
     from harness import c05_impl as impl
     from foolscap import vocab, negotiate as neg
     if not rows:
         return
     N = neg.Negotiation
     vmin, vmax = N.initialVocabTableRange
-    hashes = coq_list("(%d%%Z, %s)" % (i, zs(vocab.hashVocabTable(i))) for i in range(vmin, vmax + 1))
     defs = []
     allids = {}
     for a_pos in ("hi", "lo"):
         arr = impl.arrangement(a_pos)
-        ids = allids[a_pos] = {k: v[0] for k, v in arr.items()}
+        allids[a_pos] = {k: v[0] for k, v in arr.items()}
         for k in "ABC":
             defs.append("Definition id%s_%s : list Z := %s." % (k, a_pos, zs(arr[k][0])))
         defs.append("Definition tid_%s : Z -> list Z := fun c => if (c =? 1)%%Z then idA_%s else if (c =? 2)%%Z then idB_%s "
                     "else if (c =? 3)%%Z then idC_%s else []." % (a_pos, a_pos, a_pos, a_pos))
+        defs.append("Definition me_%s : endpoint := class_endpoint idA_%s %d %d." % (a_pos, a_pos, vmin, vmax))
     used = sorted({(t["a_pos"], t["leaf"], t["x"], n) for t in rows for n in t["names"]})
     libs = {}
     bname = {}          # (a_pos, leaf, x, block name) -> name of the Coq definition holding its bytes (equal contents are shared)
@@ -1057,36 +1136,37 @@ def correspond_bytes(ctx, rows):
             by_content[data] = "blk%d" % len(by_content)
             defs.append("Definition %s : list Z := %s." % (by_content[data], zbytes(data)))
         bname[(a_pos, leaf, x, n)] = by_content[data]
+    hf = "(fun i => " + "".join("if (i =? %d)%%Z then %s else " % (i, zs(vocab.hashVocabTable(i))) for i in range(vmin, vmax + 1)) + "[])"
     defs = "\n".join(defs) + """
 Definition code (tid : Z -> list Z) (k : list Z) : Z :=
   if list_eqb k (tid 1%Z) then 1%Z else if list_eqb k (tid 2%Z) then 2%Z else if list_eqb k (tid 3%Z) then 3%Z else 0%Z.
 Definition pc (p : rphase) : Z := match p with RPlaintext => 0%Z | RP PhEncrypted => 1%Z | RP PhDeciding => 2%Z | RP PhBanana => 3%Z | RP PhAbandoned => 4%Z end.
 Fixpoint cut (lens : list Z) (s : list Z) : list (list Z) :=
   match lens with [] => [] | n :: r => firstn (Z.to_nat n) s :: cut r (skipn (Z.to_nat n) s) end.
-Definition hashes : list (Z * list Z) := """ + hashes + """.
-Fixpoint btrace (tid : Z -> list Z) (redir : list Z -> bool) (r : role) (tgt : list Z) (p : presented Z) (st : bstate) (chunks : list (list Z)) :=
+Definition hf : Z -> list Z := """ + hf + """.
+Fixpoint btrace (tid : Z -> list Z) (me : endpoint) (redir : list Z -> bool) (r : role) (tgt : list Z) (p : presented Z) (st : bstate) (chunks : list (list Z)) :=
   match chunks with
   | [] => []
-  | c :: cs => let st' := brecv_chunk Z tid ascii_decode ref_pre_ok (ref_post_ok %d %d) (ref_decision_ok %d %d hashes) redir r (tid 1%%Z) tgt p st c in
-               (pc (b_phase st'), match b_their st' with Some t => code tid t | None => (-1)%%Z end, map (code tid) (b_attached st'),
-                match b_fail st' with Some w => w | None => "-"%%string end) :: btrace tid redir r tgt p st' cs
+  | c :: cs => let st' := real_recv_chunk hf me Z tid redir r (tid 1%Z) tgt p st c in
+               (pc (b_phase st'), match b_their st' with Some t => code tid t | None => (-1)%Z end, map (code tid) (b_attached st'),
+                match b_fail st' with Some w => w | None => "-"%string end) :: btrace tid me redir r tgt p st' cs
   end.
-""" % (vmin, vmax, vmin, vmax)
+"""
 
     def term(t):
         a = t["a_pos"]
         stream = " ++ ".join(bname[(a, t["leaf"], t["x"], n)] for n in t["names"])
         tgt = "id%s_%s" % (t["x"], a) if t["role"] == "Client" else "[]"
         redir = "(fun i => list_eqb i idC_%s)" % a if t["redirect_c"] else "(fun _ => false)"
-        return "btrace tid_%s %s %s %s %s b_init (cut %s (%s))" % (a, redir, t["role"], tgt, pres(t["leaf"], t["extras"]),
-                                                                     coq_list("%d%%Z" % n for n in t["lens"]), stream)
+        return "btrace tid_%s me_%s %s %s %s %s b_init (cut %s (%s))" % (a, a, redir, t["role"], tgt, pres(t["leaf"], t["extras"]),
+                                                                          coq_list("%d%%Z" % n for n in t["lens"]), stream)
     pnum = dict(PhPlaintext=0, PhEncrypted=1, PhDeciding=2, PhBanana=3, PhAbandoned=4)
     nbad = 0
-    for shard in range(0, len(rows), 600):
-        part = rows[shard:shard + 600]
+    for shard in range(0, len(rows), 700):
+        part = rows[shard:shard + 700]
         body = defs + "Eval vm_compute in [" + ";\n ".join(term(t) for t in part) + "].\n"
         try:
-            (vals,) = ctx.coq_eval("C05_bytes_%d" % (shard // 600), body, requires=REQB)
+            (vals,) = ctx.coq_eval("C05_bytes_%d" % (shard // 700), body, requires=REQB)
         except common.CoqEvalError as e:
             ctx.fail("correspondence-broken", "the C05 byte-level receive-loop model could not be evaluated: " + str(e)[-1500:], has_input=False)
             return
@@ -1096,16 +1176,7 @@ Fixpoint btrace (tid : Z -> list Z) (redir : list Z -> bool) (r : role) (tgt : l
             ctx.traces += 1
             want = [(pnum.get(ph, 9), -1 if th is None else rev.get(th, 0), [rev.get(k, 0) for k in reversed(att)], fl or "-") for (ph, th, att, fl) in t["obs"]]
             got = [(a, b, list(c), d) for (a, b, c, d) in tr][:len(want)]     # chunks not delivered (connection already gone) are not compared
-
-            def same(w, g):
-                if w[:3] != g[:3]:
-                    return False
-                if g[3] == "?":
-                    return w[3] != "-"
-                if g[3] == "ValueError":
-                    return w[3] in ("ValueError", "UnicodeDecodeError")
-                return w[3] == g[3]
-            if len(got) != len(want) or not all(same(w, g) for w, g in zip(want, got)):
+            if len(got) != len(want) or got != want:
                 nbad += 1
                 if nbad <= 3:
                     ctx.fail("correspondence/bytes", "Negotiation.dataReceived and its byte-level model differ (phase, theirTubRef, attached keys, last "
@@ -1115,6 +1186,117 @@ Fixpoint btrace (tid : Z -> list Z) (redir : list Z -> bool) (r : role) (tgt : l
                              replay=dict(script=t, model=got, impl=want), has_input=False)
     ctx.extra["correspondence_bytes_traces"] = len(rows)
     ctx.extra["correspondence_bytes_disagreements"] = nbad
+
+
+# ---------------------------------------------------------------------------------------------- the key path of getReference
+KEY_VARIANTS = ["B", "B_other_hint", "B_two_hints", "B_ext", "B_no_hints", "C_at_B", "C", "B_upper", "Bx_first", "Bx_mid", "Bx_last"]
+
+
+def key_trials(ctx, impl):
+    """FURLs that name the same Tub in other words (other hints, other name, longer tubid part) must be served by the one proven
+    connection; FURLs naming another Tub never by it"""
+    import itertools as it
+    jobs = [("hi", KEY_VARIANTS), ("lo", KEY_VARIANTS), ("hi", ["B_ext", "B", "C_at_B", "B_other_hint"]), ("lo", ["C_at_B", "B_no_hints", "B_two_hints", "B"])]
+    r = ctx.rng
+    for i in range(ctx.n(4, 400)):
+        jobs.append((r.choice(["hi", "lo"]), [r.choice(KEY_VARIANTS) for _ in range(r.randint(2, 5))]))
+    out = []
+    for (a_pos, variants) in jobs:
+        try:
+            k = impl.key_trial(a_pos, variants)
+        except Exception as e:
+            import traceback
+            ctx.fail("oracle/getref/exception", "an exception escaped during the key trial %r: %r" % (variants, e),
+                     replay=dict(a_pos=a_pos, variants=variants, tb=traceback.format_exc()))
+            continue
+        ctx.case(["key-trial", a_pos, list(variants)], nontrivial=len(set(variants)) >= 2)
+        for row in k["rows"]:
+            ctx.hist("key_trial_answered", "%s:%s" % (row["variant"], row["answered"]))
+        for p in k["problems"][:2]:
+            ctx.fail("oracle/getref/%s" % p[0], "%s; Tub A asked, in this order, for the FURLs %r" % (p[1], [r_["furl"] for r_ in k["rows"]]),
+                     replay=dict(trial=k))
+        out.append(k)
+    return out
+
+
+def correspond_keys(ctx, trials):
+    """(1) TubRef.__eq__ / __ne__ / __hash__ / dict membership on a grid of (tubID, hints) pairs vs tubref_eqb / tubref_hkey / dict_match;
+    (2) SturdyRef(furl).getTubRef() vs getReference_key applied to the SturdyRef's attributes (and the tub id vs an independent reading
+    of the FURL text); (3) the key trials: which table entry answers"""
+    from harness import c05_impl as impl
+    ids = {k: v[0] for k, v in impl.arrangement("hi").items()}
+    pairs, keys = impl.tubref_facts(ids)
+    lits = begin_lits()
+
+    def ostr(x):
+        return "None" if x is None else "(Some %s)" % zs(x)
+
+    def tref(t, h, n=None):
+        return "(Build_sref %s %s %s)" % (ostr(t), coq_list(zs(x) for x in h), ostr(n))
+    good = [k for k in keys if "error" not in k]
+    body = ("Definition show (s : sref) := (match sr_tub s with Some t => t | None => [] end, sr_hints s).\n"
+            "Eval vm_compute in [" + ";\n ".join("(tubref_eqb %s %s, fvals_eqb (tubref_hkey %s) (tubref_hkey %s), dict_match %s %s)"
+                                                 % (tref(*p["a"]), tref(*p["b"]), tref(*p["a"]), tref(*p["b"]), tref(*p["a"]), tref(*p["b"])) for p in pairs) + "].\n"
+            "Eval vm_compute in [" + ";\n ".join("show (getReference_key %s)" % tref(k["s_tub"], k["s_hints"], k["s_name"]) for k in good) + "].\n")
+    asks = []
+    for k in trials:
+        num = {k["ids"]["A"]: 1, k["ids"]["B"]: 2, k["ids"]["C"]: 3}
+        table = []
+        for row in k["rows"]:
+            ents = "[" + "; ".join("(Build_sref (Some %s) [] None, Build_conn Z (Some %d%%Z) false)" % (zs(t_), num.get(t_, 9)) for t_ in table) + "]"
+            hints = [h for h in row["furl"][row["furl"].index("@") + 1:row["furl"].rindex("/")].split(",") if h]
+            probe = tref(impl.url_tubid(row["furl"]), hints, row["furl"][row["furl"].rindex("/") + 1:])
+            asks.append("match getReference_broker Z %s %s with Some e => (1%%Z, match sr_tub (fst e) with Some x => x | None => [] end) | None => (0%%Z, []) end"
+                        % (ents, probe))
+            table = row["table"]
+    body += "Eval vm_compute in [" + ";\n ".join(asks) + "].\n"
+    body = lits.text() + body
+    end_lits()
+    try:
+        (v_pairs, v_keys, v_asks) = ctx.coq_eval("C05_keys", body, requires=REQK)
+    except common.CoqEvalError as e:
+        ctx.fail("correspondence-broken", "the C05 key-path model could not be evaluated: " + str(e)[-1500:], has_input=False)
+        return
+    nbad = 0
+
+    def bad(what, **kw):
+        nonlocal nbad
+        nbad += 1
+        if nbad <= 3:
+            ctx.fail("correspondence/keys", what, replay=kw, has_input=False)
+    for p, (m_eq, m_hash, m_found) in zip(pairs, v_pairs):
+        ctx.traces += 1
+        if bool(m_eq) != p["eq"] or p["ne"] == p["eq"] or bool(m_found) != p["found"] or (m_hash and not p["same_hash"]):
+            bad("TubRef%r vs TubRef%r: implementation eq=%s ne=%s same hash=%s found in dict=%s; model tubref_eqb=%s equal hashed tuples=%s dict_match=%s"
+                % (p["a"], p["b"], p["eq"], p["ne"], p["same_hash"], p["found"], m_eq, m_hash, m_found), pair=p)
+    for k, (tub, hints) in zip(good, v_keys):
+        ctx.traces += 1
+        mt = "".join(chr(c) for c in tub)
+        mh = ["".join(chr(c) for c in h) for h in hints]
+        if k["tub"] != mt or k["hints"] != mh:
+            bad("SturdyRef(%r).getTubRef(): implementation %r, model tub=%r hints=%r" % (k["furl"], k, mt, mh), key=k)
+        if k["s_tub"] != k["independent_tub"]:
+            ctx.fail("oracle/getref/furl-names-other-tub", "SturdyRef(%r).tubID is %r; the text between pb:// and @ (first 32 characters) is %r"
+                     % (k["furl"], k["s_tub"], k["independent_tub"]), replay=dict(key=k))
+    i = 0
+    for k in trials:
+        table = []
+        for row in k["rows"]:
+            code, tub = v_asks[i]
+            i += 1
+            ctx.traces += 1
+            mt = "".join(chr(c) for c in tub)
+            if code == 1:
+                # the model finds an existing entry: the implementation must answer over exactly that entry, without a new connection
+                if not row["answered"] or row["entry"] != [mt] or row["table"] != table:
+                    bad("getReference(%s) with Tub.brokers = %r: the model answers from the entry %r; implementation answered=%s entry=%r table after=%r"
+                        % (row["furl"], table, mt, row["answered"], row["entry"], row["table"]), trial=k, row=row)
+            elif code == 0 and row["answered"] and row["entry"] in [[t_] for t_ in table]:
+                bad("getReference(%s) with Tub.brokers = %r: the model finds no entry, the implementation answered from %r"
+                    % (row["furl"], table, row["entry"]), trial=k, row=row)
+            table = row["table"]
+    ctx.extra["correspondence_key_cases"] = len(pairs) + len(good) + i
+    ctx.extra["correspondence_key_disagreements"] = nbad
 
 
 # ---------------------------------------------------------------------------------------------- inbound references as histories
@@ -1167,9 +1349,12 @@ def correspond_ref_histories(ctx, rows):
         return
     def step(m):
         return "((%d)%%Z, %s)" % (m[0], "None" if m[1] is None else "Some %s" % zs(m[1]))
+    lits = begin_lits()
     body = """Fixpoint rtrace (k : list Z) (t : rtab) (ms : list (Z * option (list Z))) : list rtab :=
   match ms with [] => [] | m :: r => let t' := ref_step k t m in t' :: rtrace k t' r end.
 Eval vm_compute in [""" + ";\n ".join("rtrace %s [] %s" % (zs(h["key"]), coq_list(step(m) for m in h["model_steps"])) for h in rows) + "].\n"
+    body = lits.text() + body
+    end_lits()
     try:
         (vals,) = ctx.coq_eval("C05_refhist", body, requires=REQ)
     except common.CoqEvalError as e:
